@@ -206,7 +206,7 @@ fn gen(max_opts: usize, lead4: bool) -> Vec<String> {
     }
     // long leading runs and many in-expression options
     for base in BASES.iter().take(8) {
-        for &n in &[5usize, 6, 7, 8, 9, 16, 17, 32, 33, 64, 65, 128, 256] {
+        for n in (5usize..=70).chain([127, 128, 129, 255, 256, 257]) {
             let run: Vec<&str> = (0..n).map(|k| ["-depth", "-threads 1", "-threads 7", "-threads 9"][k % 4]).collect();
             out.push(format!("{} {base}", run.join(" ")));
             out.push(format!("{} {base}", vec!["-depth"; n].join(" ")));
